@@ -175,30 +175,27 @@ func (g *verifExclGhost) work(tok int, park <-chan struct{}) func() (interface{}
 	}
 }
 
-// C09/C10 excl_late_call: A is executing (parked inside its work function) and B is queued behind it;
-// A is released and a third, start-style call C arrives at an arbitrary moment while A finishes and B
-// takes over. No two work functions of the key overlap, B is answered, the key ends up idle with no state.
-func Harness_C09_excl_late_call() {
+// C09 excl_late_start: the slimmest three-call shape - A is executing (parked), a start-style call B is
+// queued behind it, A is released and another start-style call C arrives at an arbitrary moment while A
+// finishes and B's runner takes over. No outcome channels are involved; the only question is whether a
+// work function can be entered while another is running.
+func Harness_C09_excl_late_start() {
 	var e Exclusive
 	var g verifExclGhost
 	release := make(chan struct{})
 	verifAtomic(func() { e.Start("k", g.work(1, release)) })
 	go func() {
 		verifYield()
-		var outB <-chan *ExclusiveOutcome
 		verifAtomic(func() {
-			// state of interest: A's execution is under way (assumption); B queues behind it
 			e.mutex.Lock()
 			it := e.work["k"]
 			started := it != nil && it.running && it.count == 0
 			e.mutex.Unlock()
 			verifAssume(started)
-			outB = e.CallAsync("k", g.work(2, nil))
+			e.Start("k", g.work(2, nil))
+			close(release)
 		})
-		close(release)
 		e.Start("k", g.work(3, nil))
-		rB := <-outB
-		verifAssert(rB != nil && rB.Error == nil && (rB.Result == vtok(2) || rB.Result == vtok(3)), "queued_call_is_answered")
 	}()
 	verifFinally(func() {
 		verifAssert(!g.overlap, "work_functions_for_one_key_never_overlap")
@@ -208,10 +205,9 @@ func Harness_C09_excl_late_call() {
 	})
 }
 
-// C09/C10 excl_idle_finish: A is executing with nobody queued; it is released and an async call B and a
-// start-style call C arrive one after the other at arbitrary moments while A finishes (the key is idle
-// when its work returns).
-func Harness_C09_excl_idle_finish() {
+// C09 excl_idle_starts: A is executing with nobody queued; it is released and two start-style calls B, C
+// arrive one after the other at arbitrary moments while A finishes (the key is idle when its work returns).
+func Harness_C09_excl_idle_starts() {
 	var e Exclusive
 	var g verifExclGhost
 	release := make(chan struct{})
@@ -226,10 +222,8 @@ func Harness_C09_excl_idle_finish() {
 			verifAssume(started)
 			close(release)
 		})
-		outB := e.CallAsync("k", g.work(2, nil))
+		e.Start("k", g.work(2, nil))
 		e.Start("k", g.work(3, nil))
-		rB := <-outB
-		verifAssert(rB != nil && rB.Error == nil && (rB.Result == vtok(2) || rB.Result == vtok(3)), "async_call_is_answered")
 	}()
 	verifFinally(func() {
 		verifAssert(!g.overlap, "work_functions_for_one_key_never_overlap")
